@@ -241,6 +241,7 @@ func c08(env *core.Env, kind string, immutable bool) {
 	var handler = ociserver.New(mem, nil)
 	hists := make([][]histEntry, ntasks)
 	sched := env.Sched
+	var finishing core.Flag // a Commit or Cancel of the shared session has been invoked
 	for t := 0; t < ntasks; t++ {
 		t := t
 		sched.Spawn(fmt.Sprintf("client%d", t), func() {
@@ -257,13 +258,29 @@ func c08(env *core.Env, kind string, immutable bool) {
 			if uploads {
 				h.ID[0] = uploadID
 			}
+			detached := false
 			for _, op := range progs[t] {
 				if op.Kind >= reg.UpWrite && op.Handle == 0 && h.W[0] == nil {
+					// A task attaches to the session when it first needs it, so that several
+					// may be attaching (and, with a fresh id, creating it) at once. What a
+					// resume finds once a Commit or Cancel has been invoked - the finished
+					// session or a fresh one under the same id - is nobody's promise: a task
+					// that was not attached by then leaves the session alone.
+					if detached {
+						continue
+					}
 					w, err := r.PushBlobChunkedResume(ctx, pools.repos[0], uploadID, -1, 0)
 					if err != nil {
 						core.Harnessf("resume: %v", err)
 					}
+					if finishing.Get() {
+						detached = true
+						continue
+					}
 					h.W[0] = w
+				}
+				if op.Handle == 0 && (op.Kind == reg.UpCommit || op.Kind == reg.UpCancel) {
+					finishing.Set()
 				}
 				if op.Slow {
 					op.Between = sched.Yield // other tasks run while the listing is being consumed
@@ -645,16 +662,24 @@ func c08sessionCommits(env *core.Env) {
 	}
 	hists := make([][]histEntry, ntasks)
 	sched := env.Sched
+	// Every task gets its handle on the session before any of them runs: what a resume
+	// finds once the session has been committed or cancelled (the finished session, or
+	// a fresh one under the same id) is nobody's promise, and a task that only resumed
+	// when it was first scheduled would make the history depend on it.
+	writers := make([]ociregistry.BlobWriter, ntasks)
+	for t := range writers {
+		w, err := mem.PushBlobChunkedResume(ctx, repo, id, -1, 0)
+		if err != nil {
+			core.Harnessf("resume: %v", err)
+		}
+		writers[t] = w
+	}
 	for t := 0; t < ntasks; t++ {
 		t := t
 		sched.Spawn(fmt.Sprintf("client%d", t), func() {
 			h := reg.NewHandles()
 			h.ID[0] = id
-			w, err := mem.PushBlobChunkedResume(ctx, repo, id, -1, 0)
-			if err != nil {
-				core.Harnessf("resume: %v", err)
-			}
-			h.W[0] = w
+			h.W[0] = writers[t]
 			for _, op := range progs[t] {
 				sched.Yield()
 				e := histEntry{task: t, op: op, call: sched.Seq()}
